@@ -463,6 +463,71 @@ fn mem_range_sym<const N: usize, const N_TRUNC: usize, const BASE: u64>() {
     kani::cover!(matches!(lo, Bound::Excluded(_)) && matches!(hi, Bound::Included(_)), "(Excluded, Included) bounds");
 }
 
+/// C16/C05 with unequal payload sizes: small truncations out of a larger buffer (the shrink
+/// heuristics of RollingBuffer::truncate_head look at ratios, which 3-byte payloads cannot reach).
+/// Lengths LENS = [l0, l1, l2, l3] (0 = record absent), positions consecutive from 7; after the
+/// appends the first N_TRUNC records are truncated one by one; after every step size(), the
+/// retained records and their bytes are compared with the straightforward expectation.
+fn mem_big<const L0: usize, const L1: usize, const L2: usize, const L3: usize>() {
+    mark_case();
+    mark_nontrivial();
+    const BIG: usize = 24;
+    let meta = meta_size();
+    let f = FileNumber::for_verif(0);
+    let lens = [L0, L1, L2, L3];
+    let data: [[u8; BIG]; 4] = kani::any();
+    let mut q = MemQueue::with_next_position(7);
+    let mut n = 0;
+    while n < 4 && lens[n] > 0 {
+        match q.append_record(&f, 7 + n as u64, &data[n][..lens[n]]) {
+            Ok(()) => {}
+            Err(e) => {
+                std::mem::forget(e);
+                panic!("append rejected");
+            }
+        }
+        n += 1;
+    }
+    let mut first = 0; // index of the first retained record
+    loop {
+        // expectation
+        let mut bytes = 0;
+        let mut i = first;
+        while i < n {
+            bytes += lens[i];
+            i += 1;
+        }
+        assert!(q.size() == bytes + (n - first) * meta, "C16: size != retained payload + n * meta");
+        assert!(q.size() <= q.capacity(), "C16: size exceeds capacity");
+        let mut it = q.range(..);
+        let mut i = first;
+        while i < n {
+            match it.next() {
+                Some(r) => {
+                    assert!(r.position == 7 + i as u64, "C05: position after truncation");
+                    assert!(r.payload.len() == lens[i], "C05: payload length after truncation");
+                    let mut k = 0;
+                    while k < lens[i] {
+                        assert!(r.payload[k] == data[i][k], "C05: payload bytes after truncation");
+                        k += 1;
+                    }
+                }
+                None => panic!("C05: record lost by truncation"),
+            }
+            i += 1;
+        }
+        assert!(it.next().is_none(), "C05: extra record");
+        drop(it);
+        if first >= n {
+            break;
+        }
+        let evicted = q.truncate_head(..=(7 + first as u64));
+        assert!(evicted == 1, "C05: eviction count");
+        first += 1;
+    }
+    assert!(q.size() == 0, "C16: emptied queue accounts memory");
+}
+
 macro_rules! mshard {
     ($name:ident, $unwind:expr, $f:ident $(, $arg:expr)*) => {
         #[kani::proof]
@@ -487,6 +552,14 @@ macro_rules! mshard_mf {
 mod mem_shards {
     use super::*;
     mshard!(c05_ring_wrap_q, 16, mem_ring_wrap, 0);
+    mshard!(c16_big_q_1_16, 26, mem_big, 1, 16, 0, 0);
+    mshard!(c16_big_q_2_20_3, 26, mem_big, 2, 20, 3, 0);
+    mshard!(c16_big_q_1_1_1_24, 26, mem_big, 1, 1, 1, 24);
+    #[cfg(verif_thorough)]
+    mshard!(c16_big_t_24_1_1_1, 26, mem_big, 24, 1, 1, 1);
+    #[cfg(verif_thorough)]
+    mshard!(c16_big_t_3_17_2_9, 26, mem_big, 3, 17, 2, 9);
+    mshard!(c05_big_q_1_18_2, 26, mem_big, 1, 18, 2, 0);
     mshard!(c05_range_sym_q0, 8, mem_range_sym, 0, 0, 5);
     mshard!(c05_range_sym_q1, 8, mem_range_sym, 1, 0, 5);
     mshard!(c05_range_sym_q2, 8, mem_range_sym, 2, 0, 5);
